@@ -220,14 +220,28 @@ def esf_heavy_nc_calls(ctx, cell, x, Q2, m2c):
 def replay_esf_threshold(args):
     cell = [c for c in ESF_CELLS if c["name"] == args["cell"]][0]
     with cm.fixed_nf():
+        # the symbolic run serves all paths of a cell with the same (symbolic) Q2 and masses: like a run with several points at one Q2.
+        # Replay that history too: points well above the pair thresholds first (same Q2, same masses), then the point itself
+        # (on code without hidden state the earlier points change nothing).
+        for x_hist in (0.011, 0.5 * args["Q2"] / (args["Q2"] + 4 * args["m2c"])):
+            try:
+                esf_heavy_nc_calls(None, cell, x_hist, args["Q2"], args["m2c"])
+            except ValueError:
+                pass
         calls, _ = esf_heavy_nc_calls(None, cell, args["x"], args["Q2"], args["m2c"])
+    bad = _esf_bad(calls, args)
+    w2 = args["Q2"] * (1 - args["x"]) / args["x"]
+    if bad:
+        return True, f"{cell['name']} at x={args['x']}, Q2={args['Q2']}, m2c={args['m2c']} (W^2={w2:g} <= 4m^2): the ESF convolves {bad[:4]}"
+    return False, "nothing convolved below the threshold"
+
+
+def _esf_bad(calls, args):
     w2 = args["Q2"] * (1 - args["x"]) / args["x"]
     bad = [f"{c.__module__.split('.')[-1]}.{c.__name__}/o{o} (m2={float(m2):g})" for c, o, rsl, m2 in calls
            if rsl is not None and m2 is not None and ".heavy." in c.__module__ and c.__module__.endswith("_nc")
            and not (rsl.reg is None and rsl.sing is None and rsl.loc is None) and w2 <= 4 * float(m2)]
-    if bad:
-        return True, f"{cell['name']} at x={args['x']}, Q2={args['Q2']}, m2c={args['m2c']} (W^2={w2:g} <= 4m^2): the ESF convolves {bad[:4]}"
-    return False, "nothing convolved below the threshold"
+    return bad
 
 
 REPLAYERS = {"esf_threshold": replay_esf_threshold, "wiring": replay_wiring, "hadronic": replay_hadronic, "partonic": replay_partonic, "cc_point": replay_cc_point,
